@@ -26,7 +26,7 @@ func init() {
 		MinNonTrivial:     150,
 		MinEffectiveShare: 0.5,
 		RequiredEvents: map[string]int64{"points_compared": 30000, "kind_Deployment": 50, "kind_ReplicaSet": 50, "kind_StatefulSet": 50, "kind_DaemonSet": 50, "kind_Job": 50,
-			"kind_CronJob": 50, "kind_ReplicationController": 50, "kind_Pod": 50, "kind_OwnedPods": 50, "replicas_0": 30, "replicas_multi": 50, "collision_worlds": 20},
+			"kind_CronJob": 50, "kind_ReplicationController": 50, "kind_Pod": 50, "kind_OwnedPods": 50, "replicas_0": 30, "replicas_multi": 50, "collision_worlds": 20, "worlds_with_namespace_omitted": 50},
 	})
 }
 
@@ -104,6 +104,10 @@ func runC17(c *run.Ctx) {
 	default:
 		w = world.GenNPWorld(g, cfg)
 		world.GenIngressResources(g, w)
+	}
+	if c.Idx%4 == 1 { // workloads whose manifests carry no namespace (they live in "default"), for every kind
+		world.AddDefaultNamespaceWorkloads(g, w, cfg)
+		r.Ev("worlds_with_namespace_omitted", 1)
 	}
 	base := c.Dir("base")
 	if err := w.Write(base, c.R("l0")); err != nil {
